@@ -123,6 +123,7 @@ double valueOf(const Tree& t, int c, const std::string& e) {
     if (e == "count(preceding::*) div 2") return prec / 2.0; if (e == "(count(preceding::*) + count(ancestor::*)) div 4") return (prec + anc) / 4.0;
     if (e == "count(*) + 0.5") return kids + 0.5; if (e == "count(preceding-sibling::*) * 1.5 + 1") return ps * 1.5 + 1;
     if (e == "count(preceding::*) * 97 + 650") return prec * 97.0 + 650; if (e == "(count(preceding::*) + 1) * 676") return (prec + 1) * 676.0; if (e == "count(preceding::*) * 13 + 1900") return prec * 13.0 + 1900;
+    if (e.compare(0, 15, "xalan:evaluate(") == 0) return prec + 1; if (e.compare(0, 22, "number(xalan:evaluate(") == 0) return prec + 2 + kids;      // a string made at run time, converted to a number
     if (e == "(count(preceding::*) + 1) * 98765432101") return (prec + 1) * 98765432101.0; if (e == "count(preceding::*) * 1234567 + 123456789012") return prec * 1234567.0 + 123456789012.0; if (e == "(count(preceding::*) + 1) * 987654321") return (prec + 1) * 987654321.0;
     return prec + 1;
 }
@@ -140,7 +141,7 @@ struct C17 : public Driver {
     void init() override { xalanInitOnce(); }
 
     static std::string sheetFor(const Json& sets, const std::string& order) {
-        std::string s = "<?xml version=\"1.0\"?>\n<xsl:stylesheet version=\"1.0\" xmlns:xsl=\"http://www.w3.org/1999/XSL/Transform\" xmlns:p1=\"" + std::string(NS1) + "\" xmlns:p2=\"" + NS2 + "\" exclude-result-prefixes=\"p1 p2\"><xsl:output method=\"xml\" encoding=\"UTF-8\" indent=\"no\"/>\n<xsl:template match=\"/\"><out>";
+        std::string s = "<?xml version=\"1.0\"?>\n<xsl:stylesheet version=\"1.0\" xmlns:xsl=\"http://www.w3.org/1999/XSL/Transform\" xmlns:p1=\"" + std::string(NS1) + "\" xmlns:p2=\"" + NS2 + "\" xmlns:xalan=\"http://xml.apache.org/xalan\" exclude-result-prefixes=\"p1 p2 xalan\"><xsl:output method=\"xml\" encoding=\"UTF-8\" indent=\"no\"/>\n<xsl:template match=\"/\"><out>";
         s += "<xsl:for-each select=\"//*\">";
         if (order == "rk") s += "<xsl:sort select=\"@rk\" data-type=\"number\"/>";
         else if (order == "rev") s += "<xsl:sort select=\"position()\" data-type=\"number\" order=\"descending\"/>";
@@ -178,7 +179,7 @@ struct C17 : public Driver {
             if (c == 0 || (dc.manyNames && c < 3)) cnt = ""; else if (c == 1) cnt = name(); else if (c == 2) cnt = "*"; else if (c == 3) cnt = name() + "|" + name(); else if (c == 4) cnt = name() + "[@k]"; else cnt = "*[@k]";
             s["count"] = cnt; s["from"] = g.chance(1, 3) ? name() : std::string(); s["token"] = g.pick(toks);
             // a fifth of the sets number by value expression instead (the rounding of xsl:number value=)
-            if (g.chance(1, 5)) { static const std::vector<std::string> vals = { "count(preceding::*) div 2", "(count(preceding::*) + count(ancestor::*)) div 4", "count(*) + 0.5", "count(preceding-sibling::*) * 1.5 + 1", "count(preceding::*) + 1", "count(preceding::*) * 97 + 650", "(count(preceding::*) + 1) * 676", "count(preceding::*) * 13 + 1900" }; s["value"] = g.pick(vals); s["from"] = ""; s["count"] = ""; }
+            if (g.chance(1, 5)) { static const std::vector<std::string> vals = { "count(preceding::*) div 2", "(count(preceding::*) + count(ancestor::*)) div 4", "count(*) + 0.5", "count(preceding-sibling::*) * 1.5 + 1", "count(preceding::*) + 1", "count(preceding::*) * 97 + 650", "(count(preceding::*) + 1) * 676", "count(preceding::*) * 13 + 1900", "xalan:evaluate(concat(&quot;'&quot;, count(preceding::*) + 1, &quot;'&quot;))", "number(xalan:evaluate(concat(&quot;'&quot;, count(preceding::*) + 2, &quot;'&quot;))) + count(*)" }; s["value"] = g.pick(vals); s["from"] = ""; s["count"] = ""; }
             else if (g.chance(1, 5)) s["attr"] = true;       // number the attribute k of every element that has one
             else if (g.chance(1, 8)) { static const std::vector<std::string> big = { "(count(preceding::*) + 1) * 98765432101", "count(preceding::*) * 1234567 + 123456789012", "(count(preceding::*) + 1) * 987654321" }; static const std::vector<std::string> seps = { ",", ".", "'", " " };
                 s["value"] = g.pick(big); s["from"] = ""; s["count"] = ""; s["token"] = "1"; s["gsep"] = g.pick(seps); s["gsize"] = (long long)g.range(1, 5); }      // nine to fourteen digits, grouped
